@@ -218,6 +218,39 @@ CHECKS.update({
         note='Alphabet and names are small by construction; tuples/sets inside config data are not exercised.'),
 })
 
+CHECKS.update({
+    'C18': dict(
+        cat='model_checking', ref='DESIGN.md 4.4, 6/C18', engine='store',
+        technique='StoreAtomic behaviours (TLC edge cover, walks, -simulate) with failing runs, retries and forced '
+                  'recomputations replayed on the real library; run-info YAML and log file of every visible result read '
+                  'back after every step and compared with the run the model says produced it',
+        text='Generated run bodies log two user messages and add two run-info records carrying a process-wide run number. '
+             'After every step of every replayed behaviour the harness determines, from the model\'s run sequence, which '
+             'run produced each visible result and requires: run-info records = that run\'s records in order; task name; '
+             'parameter representations of the configuration used; input keys = locations of the inputs; namespace; log = '
+             'exactly the two messages of that run, no line of another run or task, no NUL bytes.',
+        note='Where the latest attempt failed (the log is then, by design, that of the failed attempt) only run info is '
+             'compared. Timestamps / user / version not compared.'),
+    'C19': dict(
+        cat='model_checking', ref='DESIGN.md 6/C19', engine='helpers',
+        technique='TLA+ TestHelpers enumerates every choice of real / mocked tasks and supplied parameters with the '
+                  'expected value tree or construction error; each case executed with TestChain and create_test_task',
+        text='All 260 cases of a 4-task pipeline (by-class, by-name, registry access, optional input, required / '
+             'defaulted parameters): values of real tasks equal the provenance tree over mock values (falsy mock values '
+             'included); mocks never run, return the supplied value and write no files; a missing input or required '
+             'parameter raises at construction.',
+        note='Mocks addressed by class or full slug name.'),
+    'C20': dict(
+        cat='model_checking', ref='DESIGN.md 6/C20', engine='migrate',
+        technique='TLA+ Migrate model-checked over all subsets of stored results and sequences of dry / real migrations; '
+                  'each case executed with migrate_to_parameter_mode on a generated file-based pipeline',
+        text='For every subset of stored name-mode results (JSON, numpy, pandas, generated, directory; an in-memory task) '
+             'and every sequence of dry/real migrations: target has_data map = source map after a real migration (empty '
+             'before), values equal, requests run nothing, source result files byte-identical, a further migration '
+             'changes no target result file, dry=True writes no result file.',
+        note='Empty directories / logs / run-info created by inspection are not counted as modification.'),
+})
+
 PENDING = {
     'C02': 'check not built yet (KeyScheme specification in progress)',
     'C03': 'check not built yet (KeyScheme specification in progress)',
@@ -290,8 +323,12 @@ def main():
              'kind_free_text': 'TLA+ history machine + shape enumeration for round trips'},
             {'name': 'placeholders', 'path': '/verif/specs/Placeholders.tla', 'serves_properties': ['C11'],
              'kind_free_text': 'TLA+ substitution on character sequences, property vs regular-expression transcription'},
+            {'name': 'helpers', 'path': '/verif/specs/TestHelpers.tla', 'serves_properties': ['C19'],
+             'kind_free_text': 'TLA+ enumeration of TestChain cases with expected value trees'},
+            {'name': 'migrate', 'path': '/verif/specs/Migrate.tla', 'serves_properties': ['C20'],
+             'kind_free_text': 'TLA+ model of migration between name-keyed and hash-keyed stores'},
             {'name': 'store', 'path': '/verif/specs/StoreAtomic.tla',
-             'serves_properties': ['C01', 'C04', 'C07', 'C13'],
+             'serves_properties': ['C01', 'C04', 'C07', 'C13', 'C18'],
              'kind_free_text': 'TLA+ specification of task objects / chains / data directory at public-call '
                                'granularity; TLC exhaustive + simulation; replay binding in harness/tcverif/store_*.py'},
         ],
